@@ -701,6 +701,26 @@ fn random_ctor(rng: &mut Rng, valid_only: bool) -> Op {
     }
 }
 
+/// The output of a random builder call sequence (valid and invalid control bytes, explicit
+/// lengths smaller / larger than the payload, any payload kinds) - used as parser input.
+pub fn random_built(rng: &mut Rng) -> Option<Vec<u8>> {
+    let valid = rng.chance(2, 3);
+    let mut ops = vec![random_ctor(rng, valid)];
+    for _ in 0..rng.below(5) {
+        ops.push(match rng.below(6) {
+            0 => Op::SetLen(match rng.below(4) { 0 => None, 1 => Some(rng.below(40) as u16), 2 => Some(12), _ => Some(rng.next() as u16) }),
+            1 => { let n = rng.below(6) as usize; Op::WriteTlv(random_kind(rng), rng.bytes(n)) }
+            _ => Op::Write(random_payload(rng, false)),
+        });
+    }
+    let built = build_prefix(&ops);
+    if built["k"] == "ok" {
+        Some(unrl(&built["v"]))
+    } else {
+        None
+    }
+}
+
 pub fn generate_builder(name: &str, count: usize, rng: &mut Rng, out: &mut dyn Write) -> usize {
     let mut n = 0;
     match name {
